@@ -60,7 +60,7 @@ class Req:
 
 class MatchScenario(NetScenario):
     names = {CLI: "cli", S1: "S1", S2: "S2"}
-    deliver_variants = {"S1": ["sepcon", "sepnon", "silent"], "S2": ["sepcon", "silent"]}
+    deliver_variants = {"S1": ["sepcon", "sepnon", "respfirst", "silent"], "S2": ["sepcon", "silent"]}
     horizon = 120.0
     max_steps = 120
 
